@@ -635,7 +635,8 @@ func (hp *HTTPProxy) isLocalhost(host string) bool {
 }
 
 func (hp *HTTPProxy) setBasicAuth(req *http.Request) error {
-	if req.Header.Get("Authorization") == "" {
+	// Never replace an Authorization field supplied by the client, even if its first line is empty.
+	if _, ok := req.Header["Authorization"]; !ok {
 		if u := hp.creds.MatchURL(req.URL); u != nil {
 			p, _ := u.Password()
 			req.SetBasicAuth(u.Username(), p)
